@@ -529,8 +529,11 @@ type finding struct {
 	Property  string `json:"property"`
 	Signature string `json:"signature"`
 	Input     string `json:"input,omitempty"`
-	Commit    string `json:"commit,omitempty"`
-	What      string `json:"what"`
+	// a known finding may instead be identified by regular expressions over signature and input
+	SignatureRegex string `json:"signature_regex,omitempty"`
+	InputRegex     string `json:"input_regex,omitempty"`
+	Commit         string `json:"commit,omitempty"`
+	What           string `json:"what"`
 }
 
 type findingsFile struct {
